@@ -12,6 +12,13 @@ trusted base of the regenerated tie: it is the reading of Go's semantics the tra
 * `make([]T, n)` panics for `n < 0`, else `n` zero values;
 * a pointer to an immutable record is an `Option`; dereferencing `nil` panics;
 * `a / b`, `a % b` truncate toward zero (`Int.tdiv`, `Int.tmod`) and panic for `b = 0`;
+* a `*rand.Rand` is a `Go.Rand`: the stream of the generator's future draws and the number already consumed;
+  `r.Intn(n)` panics for `n ≤ 0`, else consumes one draw and returns it reduced into `[0, n)` — for every
+  behaviour of the real generator there is a stream that reproduces it, and every stream respects `Intn`'s
+  contract, so a statement for all streams is a statement for all generators (and seeds);
+* `uint` / `uint64` are `UInt64`, `byte` / `uint8` is `UInt8` (Lean's wrap-around arithmetic is Go's); a `string` is the
+  list of its bytes; `<` on the ordered types is the class `Go.Ordered`; shifts by a signed count panic for a
+  negative count; `&`, `|`, `^` on `int` are taken on the 64-bit two's-complement patterns;
 * Go's `int` is the unbounded `Int`: overflow is NOT modelled.
 -/
 namespace AlgoVerif.Go
@@ -62,6 +69,60 @@ def deref (p : Option α) : Outcome α :=
   | some a => .ok a
   | none => .panic
 
+/-- a `*rand.Rand` (never nil here): the draws it will produce, and how many have been consumed -/
+structure Rand where
+  stream : Nat → Int
+  pos : Nat
+
+/-- `rand.New(rand.NewSource(seed))` for a seed read from the clock: `stream` is arbitrary -/
+def Rand.new (stream : Nat → Int) : Rand := ⟨stream, 0⟩
+
+/-- `r.Intn(n)`: panics for `n ≤ 0`; else the next draw, reduced into `[0, n)`, and the advanced generator -/
+def Rand.intn (r : Rand) (n : Int) : Outcome (Rand × Int) :=
+  if n ≤ 0 then .panic else .ok ({ r with pos := r.pos + 1 }, r.stream r.pos % n)
+
+/-- a Go `string`: its bytes (strings are immutable values in Go too) -/
+abbrev Str := List UInt8
+
+/-- `s[i]` on a string — index out of range panics -/
+def strIdx (s : Str) (i : Int) : Outcome UInt8 :=
+  if 0 ≤ i then (match s[i.toNat]? with | some b => .ok b | none => .panic) else .panic
+
+/-- Go's `<` on strings: bytewise lexicographic -/
+def strLt : Str → Str → Bool
+  | _, [] => false
+  | [], _ :: _ => true
+  | x :: xs, y :: ys => if x < y then true else if y < x then false else strLt xs ys
+
+/-- the types of `constraints.Ordered` / `cmp.Ordered` that the subset has (no floats: `<=` is translated as the
+negation of `>`, which NaN would break), with Go's native `<` -/
+class Ordered (α : Type) where
+  lt : α → α → Bool
+instance : Ordered Int := ⟨fun a b => decide (a < b)⟩
+instance : Ordered UInt64 := ⟨fun a b => decide (a < b)⟩
+instance : Ordered UInt8 := ⟨fun a b => decide (a < b)⟩
+instance : Ordered Str := ⟨strLt⟩
+
+/-- `v >> s` for `v uint` and a signed shift count: a negative count panics, a count `≥ 64` gives 0 -/
+def shrU64 (v : UInt64) (s : Int) : Outcome UInt64 :=
+  if s < 0 then .panic else .ok (if s < 64 then v >>> s.toNat.toUInt64 else 0)
+/-- `v << s` for `v uint` -/
+def shlU64 (v : UInt64) (s : Int) : Outcome UInt64 :=
+  if s < 0 then .panic else .ok (if s < 64 then v <<< s.toNat.toUInt64 else 0)
+/-- `v >> s` for `v int`: arithmetic shift (floor division by `2^s`), exact on the unbounded `Int` -/
+def shrInt (v : Int) (s : Int) : Outcome Int :=
+  if s < 0 then .panic else .ok (v >>> s.toNat)
+/-- `v << s` for `v int` (overflow not modelled, as for `*`) -/
+def shlInt (v : Int) (s : Int) : Outcome Int :=
+  if s < 0 then .panic else .ok (v <<< s.toNat)
+/-- `a / b` for unsigned words: division by zero panics -/
+def divU64 (a b : UInt64) : Outcome UInt64 := if b = 0 then .panic else .ok (a / b)
+/-- `a % b` for unsigned words: division by zero panics -/
+def modU64 (a b : UInt64) : Outcome UInt64 := if b = 0 then .panic else .ok (a % b)
+/-- `a & b` for `int`s: two's complement on 64 bits (exact for operands that are 64-bit `int`s) -/
+def andInt (a b : Int) : Int := (BitVec.ofInt 64 a &&& BitVec.ofInt 64 b).toInt
+def orInt (a b : Int) : Int := (BitVec.ofInt 64 a ||| BitVec.ofInt 64 b).toInt
+def xorInt (a b : Int) : Int := (BitVec.ofInt 64 a ^^^ BitVec.ofInt 64 b).toInt
 /-- how a translated loop ended: it ran to its end / hit `break` (`next`: the state of the variables
 it assigns), or executed a `return` of the enclosing function (`ret`) -/
 inductive Ctl (σ ρ : Type) where
